@@ -33,6 +33,28 @@ fn check_qvector(rep: &mut Rep, what: &'static str, qv: &QVector, want: &[u8], f
     });
     chk!(rep, "into_iter", what, Exp::Is(true), qv.clone().into_iter().collect::<Vec<u8>>() == want);
     rep.tick_n("iter_items", 3 * n as u64);
+    // the same symbols through the adaptors that rely on nth(): skip, step_by, and a jump taken after a
+    // whole number of 128/256-symbol lines has been consumed
+    for k in [1usize, 3, 5, 127, 128, 129, 255, 256, 257] {
+        let w: Vec<u8> = want.iter().copied().step_by(k).collect();
+        chk!(rep, "iter.step_by", (what, k), Exp::Is(true), qv.iter().step_by(k).collect::<Vec<u8>>() == w);
+        let w: Vec<u8> = want.iter().copied().skip(k).collect();
+        chk!(rep, "into_iter.skip", (what, k), Exp::Is(true), qv.clone().into_iter().skip(k).collect::<Vec<u8>>() == w);
+        for pre in [128usize, 256, 512] {
+            if pre <= n {
+                let mut it = qv.iter();
+                for _ in 0..pre {
+                    it.next();
+                }
+                let e = want.get(pre + k).copied();
+                chk!(rep, "next*pre then nth", (what, pre, k), Exp::Is(e), it.nth(k));
+                let e2 = want.get(pre + k + 1).copied();
+                chk!(rep, "next after nth", (what, pre, k), Exp::Is(e2), it.next());
+            }
+        }
+    }
+    chk!(rep, "iter.count", what, Exp::Is(n), qv.iter().count());
+    chk!(rep, "iter.last", what, Exp::Is(want.last().copied()), qv.iter().last());
     if n >= 2 {
         rep.nontrivial();
     }
